@@ -7,6 +7,7 @@ import (
 	"path"
 	"path/filepath"
 	"reflect"
+	"strings"
 	"sync"
 	"text/template"
 )
@@ -135,18 +136,19 @@ func (s *Set) GetTemplate(templatePath string) (t *Template, err error) {
 	return s.getSiblingTemplate(templatePath, "/", true)
 }
 
-func (s *Set) getSiblingTemplate(templatePath, siblingPath string, cacheAfterParsing bool) (t *Template, err error) {
+// parsing holds the paths of the templates currently being parsed that (transitively) extend or import this one.
+func (s *Set) getSiblingTemplate(templatePath, siblingPath string, cacheAfterParsing bool, parsing ...string) (t *Template, err error) {
 	templatePath = filepath.ToSlash(templatePath)
 	siblingPath = filepath.ToSlash(siblingPath)
 	if !path.IsAbs(templatePath) {
 		siblingDir := path.Dir(siblingPath)
 		templatePath = path.Join(siblingDir, templatePath)
 	}
-	return s.getTemplate(templatePath, cacheAfterParsing)
+	return s.getTemplate(templatePath, cacheAfterParsing, parsing...)
 }
 
 // same as GetTemplate, but doesn't cache a template when found through the loader.
-func (s *Set) getTemplate(templatePath string, cacheAfterParsing bool) (t *Template, err error) {
+func (s *Set) getTemplate(templatePath string, cacheAfterParsing bool, parsing ...string) (t *Template, err error) {
 	if !s.developmentMode {
 		t, found := s.getTemplateFromCache(templatePath)
 		if found {
@@ -154,7 +156,7 @@ func (s *Set) getTemplate(templatePath string, cacheAfterParsing bool) (t *Templ
 		}
 	}
 
-	t, err = s.getTemplateFromLoader(templatePath, cacheAfterParsing)
+	t, err = s.getTemplateFromLoader(templatePath, cacheAfterParsing, parsing...)
 	if err == nil && cacheAfterParsing && !s.developmentMode {
 		s.cache.Put(templatePath, t)
 	}
@@ -172,18 +174,23 @@ func (s *Set) getTemplateFromCache(templatePath string) (t *Template, ok bool) {
 	return nil, false
 }
 
-func (s *Set) getTemplateFromLoader(templatePath string, cacheAfterParsing bool) (t *Template, err error) {
+func (s *Set) getTemplateFromLoader(templatePath string, cacheAfterParsing bool, parsing ...string) (t *Template, err error) {
 	// check path with all possible extensions in loader
 	for _, extension := range s.extensions {
 		canonicalPath := templatePath + extension
 		if found := s.loader.Exists(canonicalPath); found {
-			return s.loadFromFile(canonicalPath, cacheAfterParsing)
+			return s.loadFromFile(canonicalPath, cacheAfterParsing, parsing...)
 		}
 	}
 	return nil, fmt.Errorf("template %s could not be found", templatePath)
 }
 
-func (s *Set) loadFromFile(templatePath string, cacheAfterParsing bool) (template *Template, err error) {
+func (s *Set) loadFromFile(templatePath string, cacheAfterParsing bool, parsing ...string) (template *Template, err error) {
+	for _, p := range parsing {
+		if p == templatePath {
+			return nil, fmt.Errorf("template %s extends or imports itself (%s)", templatePath, strings.Join(append(parsing, templatePath), " -> "))
+		}
+	}
 	f, err := s.loader.Open(templatePath)
 	if err != nil {
 		return nil, err
@@ -193,7 +200,7 @@ func (s *Set) loadFromFile(templatePath string, cacheAfterParsing bool) (templat
 	if err != nil {
 		return nil, err
 	}
-	return s.parse(templatePath, string(content), cacheAfterParsing)
+	return s.parse(templatePath, string(content), cacheAfterParsing, parsing...)
 }
 
 // Parse parses `contents` as if it were located at `templatePath`, but won't put the result into the cache.
